@@ -289,7 +289,7 @@ func (t *Type) Features() []string {
 					}
 				}
 			}
-			if x.EqualMethod == "custom" || x.CompareMethod == "custom" {
+			if strings.HasPrefix(x.EqualMethod, "custom") || strings.HasPrefix(x.CompareMethod, "custom") {
 				m["custom-method"] = true
 			}
 			if x.Under.K != KStruct {
